@@ -124,6 +124,11 @@ func checkC07(c *Ctx) {
 		}})
 	st.Wait()
 	checkC07Traces(c)
+	ncore := 150
+	if c.Thorough() {
+		ncore = 2500
+	}
+	checkCore(c, ncore, 7)
 	c.Set("exhaustive", true)
 	c.Set("bounds", map[string]any{"MaxNodes": maxNodes, "ForInVariants": fiv, "Fuel": fuel, "tlc_depth": res.Depth})
 	c.Set("rule", "every statement tree with <= MaxNodes nodes (if/if-else/block/while/for/for-in over array,object,string/call + print,break,continue,return,next,exit leaves where the parser accepts them) x every condition-outcome sequence with <= Fuel TRUE outcomes; each terminated behaviour replayed in two renderings (all braces / minimal braces) and compared line by line; non-trivial = at least one condition evaluated or more than the three rule headers printed")
